@@ -127,7 +127,9 @@ def build(case, *, lindblad_ops=None):
     f64 = lambda x: np.array(x, dtype=np.float64)   # (a Python list would go through float32 in compat)
     data = compat.make_sequence_data(f64(case["omega"]), f64(case["delta"]), f64(case["phi"]), f64(case["U"]),
                                      case["times"], masked_U=f64(case["masked"]), slm_end_time=case["slm_end"],
-                                     lindblad_ops=lindblad_ops)
+                                     lindblad_ops=lindblad_ops,
+                                     **(dict(bad_atoms=[bool(b) for b in case["bad"]], state_prep_error=float(case["spe"]))
+                                        if case.get("bad") else {}))
     rec = RecCallable(data.interaction_matrix.full_matrix, data.interaction_matrix.masked_matrix,
                       data.interaction_matrix.slm_end_time)
     object.__setattr__(data, "interaction_matrix", rec)
@@ -211,7 +213,19 @@ class Recorder:
             self.problems.append(f"rows of omega/delta/phi differ: {ro},{rd},{rp}")
         q = self.rc.queries[-1] if self.rc.queries else (float("nan"), False)
         full, masked = self.rc.full_matrix, self.rc.masked_matrix
-        if not ((q[1] and U is masked) or ((not q[1]) and U is full) or full is masked):
+        filt = getattr(impl, "well_prepared_qubits_filter", None)
+        if filt is not None:
+            # badly prepared atoms: the stepper must get the queried matrix with every entry that touches a bad atom
+            # zeroed (rows AND columns: the Hamiltonians read the upper triangle)
+            import torch
+            expected = (masked if q[1] else full).clone()
+            expected[filt, :] = 0.0
+            expected[:, filt] = 0.0
+            if not torch.equal(U, expected):
+                touching = float(max(U[filt, :].abs().max(), U[:, filt].abs().max())) if bool(filt.any()) else 0.0
+                self.problems.append(f"interaction matrix handed to the stepper at step {self.cur_idx} is not the queried one with the "
+                                     f"badly prepared atoms' rows and columns zeroed (largest entry touching a bad atom: {touching:.3g})")
+        elif not ((q[1] and U is masked) or ((not q[1]) and U is full) or full is masked):
             self.problems.append("interaction matrix handed to the stepper is not the one just queried")
         if tol != impl._config.krylov_tolerance:
             self.problems.append("krylov tolerance handed to the stepper differs from the configured one")
@@ -475,9 +489,13 @@ def piecewise(case):
     drive row k and the interaction matrix in force at its start (masked while t_k < slm_end)."""
     out = []
     t = case["times"]
+    bad = case.get("bad") or [False] * case["n"]
+    z = lambda row: [0.0 if bad[q] else row[q] for q in range(case["n"])]
     for k in range(case["nsteps"]):
         U = case["masked"] if t[k] < case["slm_end"] else case["U"]
-        out.append(((t[k + 1] - t[k]) * COEFF, dense_h(case["omega"][k], case["delta"][k], case["phi"][k], U)))
+        # a badly prepared atom is not driven and does not interact (it still feels its own noise channels)
+        U = [[0.0 if (bad[i] or bad[j]) else U[i][j] for j in range(case["n"])] for i in range(case["n"])]
+        out.append(((t[k + 1] - t[k]) * COEFF, dense_h(z(case["omega"][k]), z(case["delta"][k]), z(case["phi"][k]), U)))
     return out
 
 
